@@ -262,6 +262,7 @@ def bounded(run):
     # (runs first: the fork pool must start before the parent initialises numba's threading layer)
     from contracts import C07
     tasks = [(run.seed + 70 + k, nt, npn, sort, True) for k, (nt, npn, sort) in enumerate(itertools.product((2, 5), (None, 4), (False, True)))]
+    tasks += [(run.seed + 90 + k, 1, npn, False, True) for k, npn in enumerate((3, 5, 8))]        # single thread, odd and even stripe counts
     for t, why in zip(tasks, run.pmap(C07._e2e_worker, tasks)):
         if why:
             run.bounded_violation('tsc_parallel with weights vs spline reference', dict(seed=t[0], nthread=t[1], npartition=t[2], sort=t[3]), why)
